@@ -83,11 +83,19 @@ def run_shard(modname, tier, seed, n, shard, nshards, use_model):
             for (p, kind, cseed, tag) in mod.directed(tier):
                 one(mod, runner, stats, p, kind, cseed, "directed:" + tag, known_patterns, use_model)
     # 2. seeded random scenarios x schedules
+    nhang = 0
     for i in range(shard, n, nshards):
         rng = random.Random(seed * 1000003 + i)
         p = mod.gen(rng)
         kind = ("random", "sticky", "pct")[i % 3]
-        one(mod, runner, stats, p, kind, rng.randrange(1 << 30), "seeded:%d" % i, known_patterns, use_model)
+        r, obs, events = one(mod, runner, stats, p, kind, rng.randrange(1 << 30), "seeded:%d" % i, known_patterns, use_model)
+        if getattr(r, "hang", False):
+            # a scenario that blocks for real (outside the scheduler's view) costs its whole real-time limit: after a few
+            # of them the shard stops exploring and reports what it has (each hang is a monitor verdict already)
+            nhang += 1
+            if nhang >= 2:
+                stats.dist["aborted_after_hangs"] += 1
+                break
     if shard == 0 and hasattr(mod, "extra"):
         mod.extra(stats, tier, seed)
     if runner:
